@@ -31,7 +31,10 @@ def as_view(it, v):
         v = gen_items(it, v)
     if isinstance(v, IterView):
         return v
-    if isinstance(v, SSeq):
+    if isinstance(v, MutList):
+        v = v.val  # snapshot: python also iterates the live list, loops that mutate it while iterating are out of subset
+    from .sym import SArr
+    if isinstance(v, (SSeq, SArr)):
         return IterView(v.length(), lambda k, _v=v: _v.at(k), "seq")
     if isinstance(v, SStr):
         return IterView(v.length(), lambda k, _v=v: _v.char_at(k), "str")
@@ -363,11 +366,7 @@ def exec_while(it, s, frame):
     it.exec_block(s.orelse, frame)
 
 
-class MutList:
-    """A python list whose content is a symbolic sequence."""
-
-    def __init__(self, val):
-        self.val = val
+from .sym import MutList  # noqa: E402  (mutable symbolic list)
 
 
 # -------------------------------------------------------- comprehensions ----
